@@ -140,7 +140,10 @@ func (d *Document) UpdateTOC() error {
 	// 重新收集标题信息
 	entries := d.collectHeadings(config.MaxLevel)
 
-	// 清空SDT内容并重建
+	// 清空SDT内容并重建（打开的文档里目录SDT可能没有 w:sdtContent）
+	if tocSDT.Content == nil {
+		tocSDT.Content = &SDTContent{}
+	}
 	tocSDT.Content.Elements = []interface{}{}
 
 	// 添加目录标题段落
